@@ -27,7 +27,8 @@ TimingsA == <<
   [cyc |-> 4, del |-> 0, rep |-> -2, rev |-> FALSE], [cyc |-> 8, del |-> 2, rep |-> -2, rev |-> TRUE],
   [cyc |-> 3, del |-> 1, rep |-> 1, rev |-> FALSE],  [cyc |-> 6, del |-> 0, rep |-> 2, rev |-> TRUE],
   [cyc |-> 1, del |-> 0, rep |-> 3, rev |-> FALSE],  [cyc |-> 16, del |-> 5, rep |-> 0, rev |-> TRUE],
-  [cyc |-> 5, del |-> 2, rep |-> -1, rev |-> FALSE], [cyc |-> 2, del |-> 1, rep |-> 2, rev |-> TRUE] >>
+  [cyc |-> 5, del |-> 2, rep |-> -1, rev |-> FALSE], [cyc |-> 2, del |-> 1, rep |-> 2, rev |-> TRUE],
+  [cyc |-> 4, del |-> 1, rep |-> -3, rev |-> FALSE], [cyc |-> 2, del |-> 0, rep |-> -3, rev |-> TRUE] >>
 EasesA == <<1, 2, 3, 11, 14, 19, 37>>      \* Lin, Sq, OutSq and some built-ins (ids = harness table)
 
 Vals(i, p) == 8 * i + 3 * p
@@ -58,9 +59,10 @@ Mix(i, acc) == IF i > Len(kfs) THEN acc
                                 + Len(kfs[i].d[1]) + 2 * Len(kfs[i].d[NP]) + i) % 65521)
 H == Mix(1, Seed)
 
-Horizon(m) == (IF m.rep = -2 THEN m.del + m.cyc * 3 ELSE Total(m)) + m.del + 2
+Horizon(m) == (IF Unbounded(m) THEN m.del + m.cyc * 3 ELSE Total(m)) + m.del + 2
 
-SetToSeq(S) == CHOOSE f \in [1..Cardinality(S) -> S] : \A i, j \in 1..Cardinality(S) : i # j => f[i] # f[j]
+RECURSIVE SetToSeq(_)
+SetToSeq(S) == IF S = {} THEN <<>> ELSE LET x == CHOOSE y \in S : TRUE IN <<x>> \o SetToSeq(S \ {x})
 
 \* class of one (time, property) evaluation, used to attribute a mismatch to a property
 Class(cfg, t, p) ==
@@ -68,7 +70,7 @@ Class(cfg, t, p) ==
       D == {i \in 1..Len(ks) : Defines(ks[i], p)}
   IN IF D = {} THEN "U"
      ELSE IF t <= cfg.tm.del THEN "pre"
-     ELSE IF cfg.tm.rep # -2 /\ t >= Total(cfg.tm) THEN "end"
+     ELSE IF ~Unbounded(cfg.tm) /\ t >= Total(cfg.tm) THEN "end"
      ELSE IF \E i \in D : KEq(ks[i].pos, pos) THEN "hit"
      ELSE "seg"
 
